@@ -150,7 +150,9 @@ def cs_ops_from_acts(acts):
                 cur["fv"] = cur.get("_lastfv", "")
         elif name == "Crash":
             stage = a["stage"]
-            d = {"keep": a["keep"], "of": a["unsynced"], "torn": bool(a["torn"])}
+            # torn: "no" | "long" (>= 4 bytes of the next record survive) | "short" (1..3 bytes)
+            d = {"keep": a["keep"], "of": a["unsynced"], "torn": a["torn"] != "no",
+                 "tornlen": (1 + (a["keep"] + len(ops)) % 3) if a["torn"] == "short" else -1}
             if cur is None or (stage == "idle" and cur["op"] != "restart"):
                 close()
                 ops.append(dict(op="crash", **d))
@@ -175,9 +177,17 @@ def cs_ops_from_acts(acts):
     return ops, expect
 
 
+def beh_of_states(states):
+    """(acts, open_end) of a behaviour given as its list of states; open_end: it stops in the
+    middle of an op, which the real node will nevertheless finish"""
+    last = states[-1]
+    open_end = bool(last["up"]) and (last["pc"]["stage"] != "idle" or last["replay"] > 0)
+    return [st["act"] for st in states[1:]], open_end
+
+
 def cs_schedules(behaviours, proposer, tag):
     out, seen = [], set()
-    for acts in behaviours:
+    for acts, open_end in behaviours:
         ops, expect = cs_ops_from_acts(acts)
         if not ops:
             continue
@@ -185,7 +195,8 @@ def cs_schedules(behaviours, proposer, tag):
         if key in seen:
             continue
         seen.add(key)
-        out.append({"proposer": proposer, "future_genesis": len(out) % 2 == 1, "ops": ops, "expect": expect, "src": tag})
+        out.append({"proposer": proposer, "future_genesis": len(out) % 2 == 1, "ops": ops, "expect": expect, "src": tag,
+                    "open_end": open_end})
     return out
 
 
@@ -199,7 +210,7 @@ def sim_behaviours(ctx, prefix):
         with open(os.path.join(d, f)) as fh:
             beh = parse_behaviour_text("\n".join(ln for ln in fh.read().splitlines() if not ln.startswith("\\*")))
         os.remove(os.path.join(d, f))
-        out.append([s["act"] for _h, s in beh[1:]])
+        out.append(beh_of_states([s for _h, s in beh]))
     return out
 
 
@@ -216,6 +227,39 @@ def observed_calls(rows):
     return runs
 
 
+def schedule_from_rows(rows):
+    """Rebuild the schedule of a pipeline run from its logged events (used by --replay: the
+    failing prefix of a run, TLC-derived or random, is re-executed op by op; surviving WAL
+    tails are given in concrete records, "exact")."""
+    reset = rows[0]
+    prop = [r for r, k in ((0, "proposer0"), (1, "proposer1")) if reset.get(k)]
+    ops = []
+    pending = None
+    for r in rows[1:]:
+        ev = r["ev"]
+        if ev == "In":
+            op = {"op": r["op"], "t": r["t"], "r": r["rr"], "v": r["v"], "fv": r["fv"]}
+            ops.append(op)
+            pending = op if not r["completed"] else None
+        elif ev == "Restart":
+            op = {"op": "restart", "fv": r["fv"]}
+            ops.append(op)
+            pending = op
+        elif ev == "Replay":
+            if r["done"]:
+                pending = None
+        elif ev == "Crash":
+            w = r["wal"]
+            d = {"keep": w["kept"], "of": w["unsynced"], "exact": True, "torn": w["torn"], "tornlen": w["tornlen"]}
+            if pending is not None and r["reached"] and r["stage"] not in ("idle", "panic"):
+                d.update(at=r["stage"], attempt=max(r.get("attempt", 1), 1), tmptorn=r["tmp"] == "torn")
+                pending["crash"] = d
+            else:
+                ops.append(dict(op="crash", **d))
+            pending = None
+    return {"proposer": prop, "future_genesis": bool(reset.get("future_genesis")), "ops": ops}
+
+
 def add_violations(verdict, v, half):
     for x in v["viol"]:
         row = x["row"]
@@ -224,181 +268,219 @@ def add_violations(verdict, v, half):
                           "tlc": {k: x[k] for k in ("inv", "class")}})
 
 
-def run(ctx):
-    quick = ctx.tier == "quick"
-    stats = {}
-
-    # ---- 1. TMSignerPV: exhaustive --------------------------------------------------------
-    cfg_pv = core.cfg_variant(ctx, "C04_pv.cfg", "C04_pv_run.cfg",
-                              {"MaxCalls": 3 if quick else 4, "MaxCrashes": 2 if quick else 2})
-    r_pv = ctx.tlc("C04_pv", cfg_pv, must_pass=True, timeout=1500, workers=min(ctx.cores, 8), label="pv")
-
-    # non-vacuity: each weakened signer must be refuted
-    nonvac = {}
-    for wname in PV_WEAK:
-        rw = ctx.tlc("C04_pv", "C04_weak_pv_%s.cfg" % wname, timeout=600, workers=4, label="weak_pv_" + wname)
-        names = [v["name"] for v in rw.violations]
-        if not any(n in PROPS for n in names):
-            raise Undecided("vacuity: weakened spec Weak_%s is not refuted by TLC (%s)" % (wname, names or rw.errors[:1]))
-        nonvac["Weak_%s refuted by TLC (%s)" % (wname, names[0])] = True
-
-    # ---- 2. schedules for the real FilePV --------------------------------------------------
-    # (a) the whole act-augmented graph of a smaller bound, every state reached by its BFS path
-    cfg_g = core.cfg_variant(ctx, "C04_pv.cfg", "C04_pv_graph.cfg",
-                             {"MaxCalls": 2, "MaxCrashes": 1 if quick else 2},
-                             drop_view=True, drop_properties=True)
-    dot = os.path.join(ctx.work, "pv.dot")
-    r_g = ctx.tlc("C04_pv", cfg_g, dump=["dot,actionlabels", dot], must_pass=True, timeout=1200,
-                  workers=min(ctx.cores, 8), label="pv_graph")
-    g = core.parse_dot(dot)
-    os.remove(dot)
-    scheds = pv_schedules_from_graph(g)
-    graph_states = len(g.nodes)
-    del g
-    # (b) deeper random behaviours of a larger bound
-    cfg_s = core.cfg_variant(ctx, "C04_pv.cfg", "C04_pv_sim.cfg",
-                             {"MaxCalls": 8, "MaxCrashes": 3, "MaxHeight": 2, "MaxTs": 3},
-                             drop_view=True, drop_properties=True)
-    nsim = 150 if quick else 2500
-    simdir = ctx.subdir("pvsim")
-    r_s = ctx.tlc("C04_pv", cfg_s, simulate="file=%s,num=%d" % (os.path.join(simdir, "b"), nsim), depth=40,
-                  seed=ctx.seed, workers=1, timeout=900, label="pv_sim")
-    if r_s.errors or r_s.violations:
-        ctx.save_log("pv_sim", r_s.out)
-        raise Undecided("simulation of TMSignerPV failed: %s" % (r_s.errors or r_s.violations)[:1])
-    sim_scheds = pv_schedules_from_sim(ctx, os.path.join(simdir, "b"), nsim)
-    nrandom = 200 if quick else 4000
-
-    inp = os.path.join(ctx.work, "c04-pv-in.json")
+def run_pv_harness(ctx, scheds, nrandom, tag="pv"):
+    inp = os.path.join(ctx.work, "c04-%s-in.json" % tag)
     with open(inp, "w") as f:
-        json.dump({"scheds": scheds + sim_scheds, "random": nrandom}, f)
-    out = ctx.subdir("c04-pv-out")
+        json.dump({"scheds": scheds, "random": nrandom}, f)
+    out = ctx.subdir("c04-%s-out" % tag)
     binp = ctx.go_build_test("privval", ["zz_verif_c04_test.go"])
-    rc, txt = ctx.run_test(binp, "^TestVerifC04PV$", {"VERIF_IN": inp, "VERIF_OUT": out}, timeout=1500)
+    rc, txt = ctx.run_test(binp, "^TestVerifC04PV$", {"VERIF_IN": inp, "VERIF_OUT": out}, timeout=1800)
     if rc != 0:
         ctx.save_log("harness-pv", txt)
         raise Undecided("C04 privval harness failed (rc=%d): %s" % (rc, txt[-1500:]))
-    rows_pv = core.read_ndjson(os.path.join(out, "pv.ndjson"))
-    runs_expected = len(scheds) + len(sim_scheds) + nrandom
-    if sum(1 for r in rows_pv if r["ev"] == "Reset") != runs_expected:
-        raise Undecided("privval harness executed %d of %d runs" % (
-            sum(1 for r in rows_pv if r["ev"] == "Reset"), runs_expected))
+    rows = core.read_ndjson(os.path.join(out, "pv.ndjson"))
+    n = sum(1 for r in rows if r["ev"] == "Reset")
+    if n != len(scheds) + nrandom:
+        raise Undecided("privval harness executed %d of %d runs" % (n, len(scheds) + nrandom))
+    return rows
 
-    v_pv = core.validate_traces(ctx, "TMSignerTrace", rows_pv, label="pv", max_events=4000)
 
-    # ======================================================================= pipeline half
-    # ---- 6. TMSignCrash: exhaustive ---------------------------------------------------------
+def run_cs_harness(ctx, scheds, nrandom, tag="cs"):
+    inp = os.path.join(ctx.work, "c04-%s-in.json" % tag)
+    with open(inp, "w") as f:
+        json.dump({"scheds": [{k: v for k, v in sc.items() if k in ("proposer", "future_genesis", "ops")} for sc in scheds],
+                   "random": nrandom}, f)
+    out = ctx.subdir("c04-%s-out" % tag)
+    binc = ctx.go_build_test("consensus", ["zz_verif_c04_test.go"])
+    rc, txt = ctx.run_test(binc, "^TestVerifC04CS$", {"VERIF_IN": inp, "VERIF_OUT": out}, timeout=2400)
+    if rc != 0:
+        ctx.save_log("harness-cs", txt)
+        raise Undecided("C04 consensus harness failed (rc=%d): %s" % (rc, txt[-1500:]))
+    rows = core.read_ndjson(os.path.join(out, "cs.ndjson"))
+    n = sum(1 for r in rows if r["ev"] == "Reset")
+    if n != len(scheds) + nrandom:
+        raise Undecided("consensus harness executed %d of %d runs" % (n, len(scheds) + nrandom))
+    herr = [r for r in rows if r["ev"] == "HarnessError"]
+    if herr:
+        raise Undecided("consensus harness error in %d runs: %s" % (len(herr), herr[0]["msg"][:300]))
+    return rows
+
+
+def run(ctx):
+    from concurrent.futures import ThreadPoolExecutor
+    quick = ctx.tier == "quick"
+    stats, nonvac = {}, {}
+    W = 2                                   # TLC workers per run; at most 4 runs at a time
+    pool = ThreadPoolExecutor(max_workers=4)
+    rnd = random.Random(ctx.seed)
+
+    def tlc(module, cfg, **kw):
+        kw.setdefault("workers", W)
+        kw.setdefault("timeout", 2400)
+        return pool.submit(ctx.tlc, module, cfg, **kw)
+
+    # ---- 1. submit every TLC run (they are independent) --------------------------------------
+    # exhaustive
+    f_pv = tlc("C04_pv", core.cfg_variant(ctx, "C04_pv.cfg", "C04_pv_run.cfg",
+                                          {"MaxCalls": 3 if quick else 4, "MaxCrashes": 1 if quick else 2}),
+               must_pass=True, label="pv", workers=4)
     crash_cfgs = [("r0_prop", {"MaxRound": 0, "MaxCrashes": 2 if quick else 3, "Proposer": "{0}"}),
                   ("r0_noprop", {"MaxRound": 0, "MaxCrashes": 2 if quick else 3, "Proposer": "{}"})]
     if not quick:
         crash_cfgs += [("r1_prop1", {"MaxRound": 1, "MaxCrashes": 1, "Proposer": "{1}"}),
                        ("r1_noprop", {"MaxRound": 1, "MaxCrashes": 1, "Proposer": "{}"})]
-    r_crash = []
-    for tag, consts in crash_cfgs:
-        c = core.cfg_variant(ctx, "C04_crash.cfg", "C04_crash_%s.cfg" % tag, consts)
-        r_crash.append(ctx.tlc("C04_crash", c, must_pass=True, timeout=2400, workers=min(ctx.cores, 8), heap="6g",
-                               label="crash_" + tag))
-
-    # non-vacuity + attack schedules: every weakened pipeline must be refuted; its counterexample
-    # is the environment's winning strategy against an implementation with that regression
-    attack = []
-    for wname in PV_WEAK + ["NoFlushBeforeSign"]:
-        rw = ctx.tlc("C04_crash", "C04_weak_crash_%s.cfg" % wname, timeout=900, workers=4, label="weak_crash_" + wname)
-        names = [v["name"] for v in rw.violations]
-        wanted = PROPS if wname != "NoFlushBeforeSign" else ("NoSelfLockout",)
-        if not any(n in wanted for n in names):
-            raise Undecided("vacuity: weakened pipeline Weak_%s is not refuted by TLC (%s)" % (wname, names or rw.errors[:1]))
-        nonvac["pipeline Weak_%s refuted by TLC (%s)" % (wname, names[0])] = True
-        for v in rw.violations[:1]:
-            attack.append([st["act"] for _h, st in v["trace"][1:]])
-    # the spec says flushing before signing is NOT needed for C04 itself (the signer alone
-    # prevents the conflict); the three C04 properties must hold without it
-    r_nf = ctx.tlc("C04_crash", "C04_crash_noflush_safe.cfg", must_pass=True, timeout=900, workers=4, label="crash_noflush_safe")
-    nonvac["C04 properties hold in the pipeline without flush-before-sign (only NoSelfLockout needs it)"] = True
-
-    # ---- 7. schedules for the real node ------------------------------------------------------
-    rnd = random.Random(ctx.seed)
-    cs_scheds = cs_schedules(attack, [0], "attack")
-    graph_total = 0
-    graph_complete = True
-    for tag, prop, plist in (("prop", "{0}", [0]), ("noprop", "{}", [])):
+    f_crash = [tlc("C04_crash", core.cfg_variant(ctx, "C04_crash.cfg", "C04_crash_%s.cfg" % tag, consts),
+                   must_pass=True, heap="6g", label="crash_" + tag, workers=4) for tag, consts in crash_cfgs]
+    # graphs (act-augmented, no VIEW)
+    dot_pv = os.path.join(ctx.work, "pv.dot")
+    f_pvg = tlc("C04_pv", core.cfg_variant(ctx, "C04_pv.cfg", "C04_pv_graph.cfg", {"MaxCalls": 2, "MaxCrashes": 1 if quick else 2},
+                                           drop_view=True, drop_properties=True),
+                dump=["dot,actionlabels", dot_pv], must_pass=True, label="pv_graph")
+    graph_cfgs = [] if quick else [("prop", "{0}", [0]), ("noprop", "{}", [])]
+    f_csg = []
+    for tag, prop, plist in graph_cfgs:
         cg = core.cfg_variant(ctx, "C04_crash.cfg", "C04_crash_graph_%s.cfg" % tag,
                               {"MaxRound": 0, "MaxCrashes": 1, "Proposer": prop}, drop_view=True, drop_properties=True)
         dotc = os.path.join(ctx.work, "crash_%s.dot" % tag)
-        rg = ctx.tlc("C04_crash", cg, dump=["dot,actionlabels", dotc], must_pass=True, timeout=1200,
-                     workers=min(ctx.cores, 8), label="crash_graph_" + tag)
-        r_crash.append(rg)
+        f_csg.append((tag, plist, dotc, tlc("C04_crash", cg, dump=["dot,actionlabels", dotc], must_pass=True,
+                                            label="crash_graph_" + tag)))
+    # simulation
+    nsim = 150 if quick else 2500
+    simdir = ctx.subdir("pvsim")
+    f_pvs = tlc("C04_pv", core.cfg_variant(ctx, "C04_pv.cfg", "C04_pv_sim.cfg",
+                                           {"MaxCalls": 8, "MaxCrashes": 3, "MaxHeight": 2, "MaxTs": 3},
+                                           drop_view=True, drop_properties=True),
+                simulate="file=%s,num=%d" % (os.path.join(simdir, "b"), nsim), depth=40, seed=ctx.seed, workers=1,
+                label="pv_sim")
+    nsimc = 90 if quick else 800
+    f_css = []
+    for tag, prop, plist, mr in (("prop0", "{0}", [0], 1), ("prop1", "{1}", [1], 1), ("noprop", "{}", [], 1),
+                                 ("r0prop", "{0}", [0], 0), ("r0noprop", "{}", [], 0)):
+        csim = core.cfg_variant(ctx, "C04_crash.cfg", "C04_crash_sim_%s.cfg" % tag,
+                                {"MaxRound": mr, "MaxCrashes": 3, "Proposer": prop}, drop_view=True, drop_properties=True)
+        sd = ctx.subdir("cssim_" + tag)
+        f_css.append((tag, plist, sd, tlc("C04_crash", csim, simulate="file=%s,num=%d" % (os.path.join(sd, "b"), nsimc),
+                                          depth=120, seed=ctx.seed, workers=1, label="crash_sim_" + tag)))
+    # non-vacuity: every weakened signer / pipeline must be refuted; the pipeline counterexamples
+    # are the environment's winning strategies against an implementation with that regression
+    f_wpv = [(w, tlc("C04_pv", "C04_weak_pv_%s.cfg" % w, label="weak_pv_" + w, workers=1)) for w in PV_WEAK]
+    f_wcs = [(w, tlc("C04_crash", "C04_weak_crash_%s.cfg" % w, label="weak_crash_" + w))
+             for w in PV_WEAK + ["NoFlushBeforeSign"]]
+    f_nf = tlc("C04_crash", core.cfg_variant(ctx, "C04_crash_noflush_safe.cfg", "C04_crash_noflush_safe_run.cfg",
+                                             {"MaxCrashes": 1 if quick else 2}), must_pass=True, label="crash_noflush_safe")
+    f_det = tlc("C04_crash", core.cfg_variant(ctx, "C04_crash_detected.cfg", "C04_crash_detected_run.cfg",
+                                              {"MaxCrashes": 1 if quick else 2}), must_pass=True, label="crash_detected")
+    f_st = tlc("C04_crash", "C04_crash_shorttorn_lockout.cfg", label="crash_shorttorn_lockout")
+    # the Go harnesses build meanwhile
+    f_b1 = pool.submit(ctx.go_build_test, "privval", ["zz_verif_c04_test.go"])
+    f_b2 = pool.submit(ctx.go_build_test, "consensus", ["zz_verif_c04_test.go"])
+
+    # ---- 2. signer half: schedules, replay on the real FilePV --------------------------------
+    r_g = f_pvg.result()
+    g = core.parse_dot(dot_pv)
+    os.remove(dot_pv)
+    scheds = pv_schedules_from_graph(g)
+    graph_states = len(g.nodes)
+    del g
+    r_s = f_pvs.result()
+    if r_s.errors or r_s.violations:
+        ctx.save_log("pv_sim", r_s.out)
+        raise Undecided("simulation of TMSignerPV failed: %s" % (r_s.errors or r_s.violations)[:1])
+    sim_scheds = pv_schedules_from_sim(ctx, os.path.join(simdir, "b"), nsim)
+    nrandom = 200 if quick else 4000
+    f_b1.result()
+    f_rows_pv = pool.submit(run_pv_harness, ctx, scheds + sim_scheds, nrandom)
+
+    # ---- 3. pipeline half: schedules ------------------------------------------------------------
+    attack = []
+    for w, f in f_wcs:
+        rw = f.result()
+        names = [v["name"] for v in rw.violations]
+        wanted = PROPS if w != "NoFlushBeforeSign" else ("NoSelfLockout",)
+        if not any(n in wanted for n in names):
+            raise Undecided("vacuity: weakened pipeline Weak_%s is not refuted by TLC (%s)" % (w, names or rw.errors[:1]))
+        nonvac["pipeline Weak_%s refuted by TLC (%s)" % (w, names[0])] = True
+        for v in rw.violations[:1]:
+            attack.append(beh_of_states([st for _h, st in v["trace"]]))
+    r_st = f_st.result()
+    if not any(v["name"] == "NoSelfLockout" for v in r_st.violations):
+        raise Undecided("the short-torn-tail behaviour no longer breaks NoSelfLockout in the spec")
+    for v in r_st.violations[:1]:
+        attack.append(beh_of_states([st for _h, st in v["trace"]]))
+    cs_scheds = cs_schedules(attack, [0], "attack")
+    graph_total, graph_complete, r_graphs = 0, not quick, []
+    for tag, plist, dotc, f in f_csg:
+        r_graphs.append(f.result())
         gg = core.parse_dot(dotc)
         os.remove(dotc)
-        behs = [[gg.nodes[nid]["act"] for nid in nodes[1:]] for nodes in core.graph_schedules(gg)]
+        behs = [beh_of_states([gg.nodes[nid] for nid in nodes]) for nodes in core.graph_schedules(gg)]
         graph_total += len(gg.nodes)
         del gg
-        sc = cs_schedules(behs, plist, "graph_" + tag)
-        limit = 120 if quick else len(sc)
-        if len(sc) > limit:
-            graph_complete = False
-            sc = rnd.sample(sc, limit)
-        cs_scheds += sc
-    nsimc = 60 if quick else 700
-    for tag, prop, plist in (("prop0", "{0}", [0]), ("prop1", "{1}", [1]), ("noprop", "{}", [])):
-        csim = core.cfg_variant(ctx, "C04_crash.cfg", "C04_crash_sim_%s.cfg" % tag,
-                                {"MaxRound": 1, "MaxCrashes": 3, "Proposer": prop}, drop_view=True, drop_properties=True)
-        sd = ctx.subdir("cssim_" + tag)
-        rs = ctx.tlc("C04_crash", csim, simulate="file=%s,num=%d" % (os.path.join(sd, "b"), nsimc), depth=120,
-                     seed=ctx.seed, workers=1, timeout=900, label="crash_sim_" + tag)
+        cs_scheds += cs_schedules(behs, plist, "graph_" + tag)
+    for tag, plist, sd, f in f_css:
+        rs = f.result()
         if rs.errors or rs.violations:
             ctx.save_log("crash_sim", rs.out)
             raise Undecided("simulation of TMSignCrash failed: %s" % (rs.errors or rs.violations)[:1])
         cs_scheds += cs_schedules(sim_behaviours(ctx, os.path.join(sd, "b")), plist, "sim_" + tag)
-    ncsrandom = 60 if quick else 1500
+    ncsrandom = 80 if quick else 1500
+    f_b2.result()
+    rows_cs = run_cs_harness(ctx, cs_scheds, ncsrandom)
+    rows_pv = f_rows_pv.result()
 
-    inp = os.path.join(ctx.work, "c04-cs-in.json")
-    with open(inp, "w") as f:
-        json.dump({"scheds": [{k: v for k, v in sc.items() if k not in ("expect", "src")} for sc in cs_scheds],
-                   "random": ncsrandom}, f)
-    outc = ctx.subdir("c04-cs-out")
-    binc = ctx.go_build_test("consensus", ["zz_verif_c04_test.go"])
-    rc, txt = ctx.run_test(binc, "^TestVerifC04CS$", {"VERIF_IN": inp, "VERIF_OUT": outc}, timeout=2400)
-    if rc != 0:
-        ctx.save_log("harness-cs", txt)
-        raise Undecided("C04 consensus harness failed (rc=%d): %s" % (rc, txt[-1500:]))
-    rows_cs = core.read_ndjson(os.path.join(outc, "cs.ndjson"))
-    nruns_cs = sum(1 for r in rows_cs if r["ev"] == "Reset")
-    if nruns_cs != len(cs_scheds) + ncsrandom:
-        raise Undecided("consensus harness executed %d of %d runs" % (nruns_cs, len(cs_scheds) + ncsrandom))
-    herr = [r for r in rows_cs if r["ev"] == "HarnessError"]
-    if herr:
-        raise Undecided("consensus harness error in %d runs: %s" % (len(herr), herr[0]["msg"][:300]))
+    # ---- 4. the remaining TLC verdicts ---------------------------------------------------------
+    r_pv = f_pv.result()
+    r_crash = [f.result() for f in f_crash]
+    for w, f in f_wpv:
+        rw = f.result()
+        names = [v["name"] for v in rw.violations]
+        if not any(n in PROPS for n in names):
+            raise Undecided("vacuity: weakened spec Weak_%s is not refuted by TLC (%s)" % (w, names or rw.errors[:1]))
+        nonvac["signer Weak_%s refuted by TLC (%s)" % (w, names[0])] = True
+    f_nf.result()
+    nonvac["the three C04 properties hold in the pipeline WITHOUT flush-before-sign (the signer alone prevents the "
+           "conflict; the flush is what makes replay recompute the same vote: NoSelfLockout)"] = True
+    f_det.result()
+    nonvac["NoSelfLockout holds iff every torn WAL tail is detected; the 1..3-byte tail of the code as it is breaks it "
+           "(WAL defect, reported under C15)"] = True
+    pool.shutdown()
+
+    # ---- 5. trace validation (TLC judges the observed behaviour) --------------------------------
+    v_pv = core.validate_traces(ctx, "TMSignerTrace", rows_pv, label="pv", max_events=4000)
     v_cs = core.validate_traces(ctx, "TMSignerTrace", rows_cs, label="cs", max_events=4000)
 
     # how well the abstract node of TMSignCrash predicts the real node: signer calls expected
     # by the behaviour vs. signer calls made (statistic only)
     obs = observed_calls(rows_cs)
-    same = 0
-    mism = []
+    same, nsched, mism = 0, 0, []
     for i, sc in enumerate(cs_scheds):
+        if sc["src"] == "attack":
+            continue        # counterexamples of weakened specs: the real code must NOT follow them
+        nsched += 1
         exp = [{k: x[k] for k in ("t", "r", "v", "kind", "err")} for x in sc["expect"]]
-        if exp == obs[i]:
+        if exp == obs[i] or (sc["open_end"] and exp == obs[i][:len(exp)]):
             same += 1
-        elif len(mism) < 3:
+        elif len(mism) < 2:
             mism.append({"src": sc["src"], "expected": exp, "observed": obs[i]})
     stats["pipeline_schedules"] = {"attack": sum(1 for x in cs_scheds if x["src"] == "attack"),
                                    "graph": sum(1 for x in cs_scheds if x["src"].startswith("graph")),
                                    "sim": sum(1 for x in cs_scheds if x["src"].startswith("sim")),
                                    "random": ncsrandom}
-    stats["pipeline_schedule_conformance"] = {"runs": len(cs_scheds), "signer_calls_as_predicted": same,
-                                              "first_mismatches": mism}
+    stats["pipeline_schedule_conformance"] = {"runs": nsched, "signer_calls_as_predicted": same, "first_mismatches": mism}
     crashes = [r for r in rows_cs if r["ev"] == "Crash"]
     stats["pipeline_crashes"] = {"total": len(crashes),
                                  "by_stage": {st: sum(1 for r in crashes if r["stage"] == st)
                                               for st in sorted(set(r["stage"] for r in crashes))},
+                                 "during_replay": sum(1 for r in crashes if r["replay"]),
                                  "with_torn_wal_record": sum(1 for r in crashes if r["wal"]["torn"]),
+                                 "with_short_torn_tail": sum(1 for r in crashes if 0 < r["wal"]["tornlen"] < 4),
                                  "not_reached": sum(1 for r in rows_cs if r["ev"] == "CrashNotReached"),
                                  "wal_repaired_on_restart": sum(1 for r in rows_cs if r["ev"] == "Replay" and r["repaired"])}
+    stats["pipeline_node_panics"] = sum(1 for r in crashes if r["stage"] == "panic")
     stats["pipeline_graph_states"] = graph_total
     stats["pipeline_graph_completely_replayed"] = graph_complete
 
-    # ---- 8. verdict ------------------------------------------------------------------------
+    # ---- 6. verdict ------------------------------------------------------------------------
     verdict = core.Verdict(ctx)
     add_violations(verdict, v_pv, "signer")
     add_violations(verdict, v_cs, "pipeline")
@@ -418,20 +500,23 @@ def run(ctx):
             distinct.add(json.dumps(["cs", r["stage"], r["signed"], r["wal"]["kept"], r["wal"]["unsynced"], r["wal"]["torn"],
                                      r["file"]["r"], r["file"]["s"], r["replay"]], sort_keys=True))
     sample_cs = [r for r in rows_cs if r["ev"] != "Wal"][:14]
+    tlc_all = [r_pv, r_g] + r_crash + r_graphs
     coverage = {
-        "states": r_pv.distinct + r_g.distinct + sum(x.distinct for x in r_crash),
-        "transitions": r_pv.generated + r_g.generated + sum(x.generated for x in r_crash),
+        "states": sum(x.distinct for x in tlc_all),
+        "transitions": sum(x.generated for x in tlc_all),
         "traces_validated_against_impl": v_pv["runs"] + v_cs["runs"],
         "evaluations": len(rows_pv) + len(rows_cs),
         "distinct_nontrivial": len(distinct),
         "rule": "signer half: every state of the act-augmented TMSignerPV graph (2 calls) reached by replaying its BFS "
                 "path on a real FilePV, %d simulated behaviours (8 calls, 3 crashes, 2 heights), %d seeded random runs. "
-                "pipeline half: real consensus.State + FilePV + BaseWAL crashed and restarted along %d TLC behaviours of "
-                "TMSignCrash (counterexamples of the 6 weakened pipelines, BFS paths of the round-0 one-crash graphs%s, "
-                "simulation with rounds 0..1 and 3 crashes) and %d seeded random schedules. A step is distinct by "
-                "(request, result, returned message, memory state) / (crash stage, surviving WAL tail, file)" % (
-                    len(sim_scheds), nrandom, len(cs_scheds), "" if graph_complete else " (sampled)", ncsrandom),
+                "pipeline half: a real consensus.State + FilePV + BaseWAL crashed and restarted along %d TLC behaviours of "
+                "TMSignCrash (counterexamples of the weakened pipelines, %ssimulation with rounds 0..1 and up to 3 crashes) "
+                "and %d seeded random schedules. A step is distinct by (request, result, returned message, memory state) / "
+                "(crash stage, surviving WAL tail, file)" % (
+                    len(sim_scheds), nrandom, len(cs_scheds),
+                    "every BFS path of the round-0 one-crash graphs, " if graph_complete else "", ncsrandom),
         "samples": [core.abridge([r for r in rows_pv[:10]], 10), core.abridge(sample_cs, 14)],
+        # the signer graph is always replayed completely; the pipeline graphs only in the thorough tier
         "exhaustive": bool(graph_complete),
         "tlc_runs": ctx.tlc_stats,
         "pv_graph_states_replayed": graph_states,
@@ -448,8 +533,11 @@ def run(ctx):
     rc = verdict.finish()
     ctx.write_evidence(coverage, [
         "ed25519 signing is deterministic and unforgeable: a signature is identified with the sign bytes it verifies over",
-        "crash = process death; a power loss that undoes a completed rename (no directory fsync in WriteFileAtomic) is not modelled",
-        "the two crash points inside saveSigned are produced by placing the file written by the real call as a stray temp file / as the state file",
+        "crash = process death; a power loss that undoes a completed rename (no directory fsync in WriteFileAtomic) is not modelled and can never be a violation here",
+        "the crash points inside saveSigned (temp file written / renamed, call not returned) are produced by placing the file the real call wrote as a stray temp file / as the state file",
+        "the pipeline harness plays the three cases of State.receiveRoutine itself (wal.Write / wal.WriteSync, then handleMsg / handleTimeout) so that it is the only scheduler; the catch-up loop of State.OnStart is copied into it",
+        "a signature handed back by the real FilePV counts as released even when the (simulated) crash falls before consensus gets it",
+        "one height, rounds 0..1, four validators of equal power; remote signers are not covered",
         "a TLC verdict is accepted only if the verdict file covers every trace line",
     ], len(verdict.new))
     return rc
@@ -461,28 +549,25 @@ def replay(ctx, path):
         rep = json.load(f)
     prefix = rep["replay"]["prefix"]
     half = rep["replay"].get("half", "signer")
-    if half != "signer":
-        raise Undecided("replay of pipeline traces not built yet")
-    ops = []
-    for r in prefix[1:]:
-        if r["ev"] == "Sign":
-            ops.append({"op": "sign", "req": r["req"]})
-        elif r["ev"] == "Crash":
-            ops.append({"op": "crash", "stage": r["stage"], "torn": r["torn"], "req": r["req"]})
-        elif r["ev"] == "Load":
-            ops.append({"op": "load"})
-    inp = os.path.join(ctx.work, "c04-pv-in.json")
-    with open(inp, "w") as f:
-        json.dump({"scheds": [{"ops": ops}], "random": 0}, f)
-    out = ctx.subdir("c04-pv-out")
-    binp = ctx.go_build_test("privval", ["zz_verif_c04_test.go"])
-    rc, txt = ctx.run_test(binp, "^TestVerifC04PV$", {"VERIF_IN": inp, "VERIF_OUT": out})
-    if rc != 0:
-        raise Undecided("harness failed: " + txt[-800:])
-    rows = core.read_ndjson(os.path.join(out, "pv.ndjson"))
+    if half == "signer":
+        ops = []
+        for r in prefix[1:]:
+            if r["ev"] == "Sign":
+                ops.append({"op": "sign", "req": r["req"]})
+            elif r["ev"] == "Crash":
+                ops.append({"op": "crash", "stage": r["stage"], "torn": r["torn"], "req": r["req"]})
+            elif r["ev"] == "Load":
+                ops.append({"op": "load"})
+        rows = run_pv_harness(ctx, [{"ops": ops}], 0, tag="replay")
+    else:
+        # the schedule is stored with the replay (a random run is reproduced by its recorded ops)
+        sched = rep["replay"].get("schedule")
+        if not sched:
+            sched = schedule_from_rows(prefix)
+        rows = run_cs_harness(ctx, [sched], 0, tag="replay")
     v = core.validate_traces(ctx, "TMSignerTrace", rows, label="replay")
     verdict = core.Verdict(ctx)
-    add_violations(verdict, v, "signer")
+    add_violations(verdict, v, half)
     for x in v["viol"]:
         log("replay: %s fails at %s" % (x["inv"], json.dumps(x["row"])[:300]))
     return verdict.finish()
